@@ -135,7 +135,8 @@ def rand_residues(rng, n, kind):
     elif kind == "rna":
         al = "ACGU" if rng.random() < 0.7 else "ACGUNacgu"
     else:
-        al = AMINO if rng.random() < 0.7 else AMINO_X + "acdefghik*"
+        r = rng.random()
+        al = AMINO if r < 0.6 else (AMINO_X + "acdefghik*" if r < 0.85 else "ABCDEFGHIJKLMNOPQRSTUVWXYZabcdefghijklmnopqrstuvwxyz*")   # every letter is a residue
     return "".join(rng.choice(al) for _ in range(n))
 
 
@@ -306,6 +307,8 @@ def gen_linebased(rng, fmt, kind="dna", nrec=None, tier="quick"):
         if fmt in ("embl", "uniprot"):
             out.append("ID   %s%s %s; %d %s.%s" % (name, rng.choice([";", "", "  "]), "STD", L, "BP" if kind != "amino" else "AA", eol))
             out.append("XX" + eol)
+            if rng.random() < 0.25:      # lines that match a keyword only on a shorter / longer prefix: must be skipped
+                out.append(rng.choice(["AC  Z99999;", "ACX  Z99999;", "DE  not a description", "DEX  not a description", "SQ  x", "SQX  Sequence", "AC", "DE"]) + eol)
             if acc:
                 out.append("AC   %s;%s%s" % (acc, rng.choice(["", " Q99999;"]), eol))
                 if rng.random() < 0.3:
@@ -321,6 +324,8 @@ def gen_linebased(rng, fmt, kind="dna", nrec=None, tier="quick"):
                 out.append("     " + " ".join(ln[k:k + 10] for k in range(0, len(ln), 10)) + ("   %9d" % min(L, p + per) if rng.random() < 0.8 else "") + eol)
         else:
             out.append("LOCUS       %s %d bp    DNA%s" % (name, L, eol))
+            if rng.random() < 0.25:
+                out.append(rng.choice(["VERSION  Z99999.1", "VERSIONS  Z99999.1", "DEFINITIO  nothing", "DEFINITIONX nothing", "ORIGI", "ORIGI N", "VERSION", "LOCUS  decoy 1 bp"]) + eol)
             for j in range(0, len(desc), 4):
                 out.append(("DEFINITION  " if j == 0 else "            ") + " ".join(desc[j:j + 4]) + eol)
             if acc:
@@ -401,6 +406,36 @@ def gen_boundary_linebased(rng, fmt, kind="dna"):
         out.append("//" + eol)
         recs.append({"name": name, "acc": acc, "seq": seq})
     return "".join(out).encode("latin-1"), {"recs": recs, "geom": "linebased", "width": 60, "kind": kind, "fmt": fmt}
+
+
+def gen_hmmpgmd(rng, kind="amino"):
+    """hmmpgmd database: one `#` header line (optionally after white space), then plain FASTA"""
+    data, meta = gen_fasta(rng, "quick", kind)
+    hdr = rng.choice(["", "", "\n", " "]) + "#" + rng.choice(["res_cnt seq_cnt db_cnt 1 2 3", "", " x", "hdr with > inside"]) + rng.choice(["\n", "\r\n", "\n\n"])
+    return hdr.encode("latin-1") + data, dict(meta, fmt="hmmpgmd")
+
+
+def gen_daemon(rng, kind="dna", nrec=None):
+    """Multi-record daemon-format stream: FASTA records, each terminated by a `//` line (optionally with trailing text, CRLF, blank
+    lines after it; the last terminator with or without a newline)."""
+    if nrec is None:
+        nrec = rng.choice([1, 2, 2, 3, 5])
+    eol = "\r\n" if rng.random() < 0.25 else "\n"
+    used, out, recs = set(), [], []
+    for i in range(nrec):
+        L = rng.choice([0, 1, 5, 60, 61, rng.randrange(1, 200), rng.randrange(1, 200)])
+        seq = rand_residues(rng, L, kind)
+        name = rand_name(rng, used)
+        desc = rand_desc(rng).split("\x01")[0] if rng.random() < 0.5 else ""
+        w = rng.choice([60, 10, 1, 200])
+        out.append(">" + name + (" " + desc if desc else "") + eol)
+        out += [seq[k:k + w] + eol for k in range(0, L, w)]
+        last = i == nrec - 1
+        out.append("//" + rng.choice(["", "", "", " end of record", "\t"]) + ("" if last and rng.random() < 0.3 else eol))
+        if not last and rng.random() < 0.2:
+            out.append(eol)
+        recs.append({"name": name, "desc": desc, "seq": seq})
+    return "".join(out).encode("latin-1"), {"recs": recs, "geom": "daemon", "width": 60, "kind": kind, "fmt": "daemon"}
 
 
 BSIZES = [1, 2, 3, 7, 64, 4096]
@@ -789,9 +824,27 @@ def monitor_c04(case, out):
     return keyed("C04", case, out, _monitor_c04)
 
 
+def open_must_succeed(case, out, Failure):
+    """generated files with at least one record are well formed: every open (declared or autodetected format) must succeed"""
+    if (case.get("meta") or {}).get("nrec", 0) <= 0:
+        return None
+    lead_ws = False
+    for op, l in zip(case["ops"], out):
+        if op.startswith("file "):
+            d = dict(x.split("=", 1) for x in op.split()[1:] if "=" in x)
+            lead_ws = unhx(d.get("hex", "-"))[:1] in (b" ", b"\t", b"\n", b"\r", b"")
+        if " fmt=unknown" in op and lead_ws:
+            continue        # autodetection looks at the first byte of the first non-blank line: white space before '>' defeats it
+        if op.startswith("open ") and not l.startswith(("ok", "fault", "atexit")):
+            return Failure("monitor", "opening a well-formed file failed: %s -> %s" % (op[:60], l[:40]))
+        if op.startswith("srcscan ") and " open-" in l[:24]:
+            return Failure("monitor", "opening a well-formed file through a pipe / stdin failed: %s -> %s" % (op[:60], l[:40]))
+    return None
+
+
 def _monitor_c04(case, out):
     from vlib.engine import Failure
-    f = basic_line_checks(case, out, Failure)
+    f = basic_line_checks(case, out, Failure) or open_must_succeed(case, out, Failure)
     if f:
         return f
     byfile = {}
@@ -878,7 +931,8 @@ def _monitor_c04(case, out):
 
 C04_THEOREMS = ["fwd_first_window", "fwd_windows_tile", "rev_first_window", "rev_windows_tile", "rev_offset_brute_force",
                 "addbuf_moves_only_bpos", "loadbuf_ignores_bpos_partial", "nextchar_block_size_independent_partial",
-                "writeFasta_keeps_residues_partial"]
+                "writeFasta_keeps_residues_partial", "open_block_size_independent", "header_fasta_block_size_independent",
+                "seebuf_is_byte_fold", "buffer_cut_invisible_partial"]
 C02_THEOREMS = ["loadbuf_total", "nextchar_total", "nextchar_no_fault", "seebuf_total", "inmaps_agree"]
 C07_THEOREMS = ["findSubseq_absent", "findSubseq_out_of_range", "fetchSubseq_absent", "fetchSubseq_start_out_of_range", "findSubseq_cases",
                 "lands_on_start_line", "lands_on_start_residue", "lands_on_start_none", "bplrpl_sound_partial", "bplrpl_unsound_single_line", "bplrpl_unsound_at_init"]
@@ -1219,6 +1273,9 @@ def monitor_msaseq(case, out):
     rows = (case.get("meta") or {}).get("msaseq")
     if not rows:
         return None
+    for op, l in zip(case["ops"], out):
+        if op.startswith("open ") and not l.startswith(("ok", "fault", "atexit")):
+            return Failure("monitor", "opening a well-formed alignment file as a sequence file failed: %s -> %s" % (op, l[:40]))
     for data, od, items in sessions(case, out):
         abc = od.get("abc", "text")
         idx = 0
